@@ -61,6 +61,7 @@ type Ctx struct {
 	nontrivial map[string]bool
 	samples    []any
 	inconcl    []string
+	inconclRun []string
 }
 
 func (c *Ctx) Violate(prop, sig, msg string, detail any) {
@@ -101,9 +102,18 @@ func (c *Ctx) Sample(v any) {
 	c.mu.Unlock()
 }
 
+// Inconclusive: this CASE could not be judged (its environment could not be set up, a helper did not start). The case
+// counts as not executed; see the tolerance in RunCheck.
 func (c *Ctx) Inconclusive(why string) {
 	c.mu.Lock()
-	c.inconcl = append(c.inconcl, why)
+	c.inconcl = append(c.inconcl, c.ID+": "+why)
+	c.mu.Unlock()
+}
+
+// InconclusiveRun: something puts the whole run in doubt (a race inside the harness, ...): never tolerated.
+func (c *Ctx) InconclusiveRun(why string) {
+	c.mu.Lock()
+	c.inconclRun = append(c.inconclRun, why)
 	c.mu.Unlock()
 }
 
@@ -178,7 +188,8 @@ type result struct {
 	counters   map[string]int64
 	nontrivial map[string]bool
 	samples    []any
-	inconcl    []string
+	inconcl    []string // cases that could not be judged
+	inconclRun []string // reasons that put the whole run in doubt
 }
 
 // RunCheck executes chk according to the command-line flags and writes evidence + verdict lines.
@@ -248,6 +259,7 @@ func RunCheck(t *testing.T, chk Check) int {
 			res.samples = append(res.samples, c.samples[0])
 		}
 		res.inconcl = append(res.inconcl, c.inconcl...)
+		res.inconclRun = append(res.inconclRun, c.inconclRun...)
 	}
 	var finMu sync.Mutex
 	finalized := false
@@ -296,11 +308,29 @@ func RunCheck(t *testing.T, chk Check) int {
 			fmt.Printf("  sig=%s case=%s: %s\n", v.Sig, v.CaseID, v.Msg)
 		}
 		nontriv := len(res.nontrivial)
-		inconclusive := len(res.inconcl) > 0
-		if *FlagCase == "" && nontriv < chk.MinNontrivial {
-			res.inconcl = append(res.inconcl, fmt.Sprintf("only %d distinct non-trivial cases (< %d)", nontriv, chk.MinNontrivial))
-			inconclusive = true
+		// Verdict of the run: a violation wins; otherwise the run is inconclusive when anything puts the whole run in doubt
+		// (watchdog, harness race, too little non-trivial coverage) or when more than a hundredth of its cases (at least
+		// one is allowed) could not be judged because their environment did not come up (a helper process that did not
+		// start on a loaded machine, a port that was taken). The few unjudged cases of an otherwise complete run are
+		// listed (UNJUDGED lines, coverage.unjudged_cases in the evidence) and counted as not executed: the verdict "held"
+		// speaks about the executed cases only, and the non-trivial coverage minimum is checked without them.
+		tolerated := res.cases / 100
+		if tolerated < 1 {
+			tolerated = 1
 		}
+		if *FlagCase != "" {
+			tolerated = 0
+		}
+		unjudged := res.inconcl
+		if len(unjudged) > tolerated {
+			res.inconclRun = append(res.inconclRun, fmt.Sprintf("%d of %d cases could not be judged", len(unjudged), res.cases))
+			res.inconclRun = append(res.inconclRun, unjudged...)
+			unjudged = nil
+		}
+		if *FlagCase == "" && nontriv < chk.MinNontrivial {
+			res.inconclRun = append(res.inconclRun, fmt.Sprintf("only %d distinct non-trivial cases (< %d)", nontriv, chk.MinNontrivial))
+		}
+		inconclusive := len(res.inconclRun) > 0
 		// evidence
 		if *FlagCase == "" && os.Getenv("VERIF_NOEVIDENCE") == "" && chk.Level != "" && len(chk.Prop) == 3 {
 			cov := map[string]any{
@@ -317,8 +347,11 @@ func RunCheck(t *testing.T, chk Check) int {
 			if len(res.samples) == 0 {
 				cov["samples"] = []any{"(no sample recorded)"}
 			}
-			if len(res.inconcl) > 0 {
-				cov["inconclusive"] = res.inconcl
+			if len(res.inconclRun) > 0 {
+				cov["inconclusive"] = res.inconclRun
+			}
+			if len(unjudged) > 0 {
+				cov["unjudged_cases"] = unjudged
 			}
 			assumptions := chk.Assumptions
 			if assumptions == nil {
@@ -353,11 +386,14 @@ func RunCheck(t *testing.T, chk Check) int {
 			fmt.Printf("VERIF-DONE property=%s verdict=violated new=%d\n", chk.Prop, newViol)
 			return 1
 		case inconclusive:
-			for _, s := range res.inconcl {
+			for _, s := range res.inconclRun {
 				fmt.Printf("INCONCLUSIVE property=%s %s\n", chk.Prop, s)
 			}
 			fmt.Printf("VERIF-DONE property=%s verdict=inconclusive\n", chk.Prop)
 			return 2
+		}
+		for _, s := range unjudged {
+			fmt.Printf("UNJUDGED property=%s %s\n", chk.Prop, s)
 		}
 		fmt.Printf("VERIF-DONE property=%s verdict=held\n", chk.Prop)
 		return 0
@@ -398,7 +434,7 @@ func RunCheck(t *testing.T, chk Check) int {
 						f.Close()
 					}
 					rmu.Lock()
-					res.inconcl = append(res.inconcl, fmt.Sprintf("case %s did not finish within %v of wall-clock time (watchdog; goroutine dump in %s); remaining cases not executed", stuck, caseLimit, dump))
+					res.inconclRun = append(res.inconclRun, fmt.Sprintf("case %s did not finish within %v of wall-clock time (watchdog; goroutine dump in %s); remaining cases not executed", stuck, caseLimit, dump))
 					rmu.Unlock()
 					if raceEnabled {
 						// what the race detector reported before the run got stuck is still a verdict (a stuck run is often the
@@ -588,7 +624,7 @@ func ReportRaces(c *Ctx, workload string) {
 	c.Count("race_reports", len(reps))
 	c.Count("race_signatures", len(seen))
 	if harnessOnly > 0 {
-		c.Inconclusive(fmt.Sprintf("%d race report(s) without repository frames (harness race)", harnessOnly))
+		c.InconclusiveRun(fmt.Sprintf("%d race report(s) without repository frames (harness race)", harnessOnly))
 	}
 }
 
